@@ -31,9 +31,8 @@ INDICATOR = {"nonneg", "l2ball"}
 # complex input supported by the functional's definition (NonNegativeIndicator raises for complex;
 # NuclearNorm/L21 work for complex data too; SquaredL2Loss with complex diagonal A)
 COMPLEX_OK = set(FAMILIES) - {"nonneg", "lossgen"}
-# block input: L1MinusL2Norm.prox uses snp.max which rejects BlockArray (C13 finding, not exercised here);
-# NuclearNorm needs a 2-D array
-BLOCK_OK = set(FAMILIES) - {"l1l2", "nuclear"}
+# block input: every family except NuclearNorm (needs a 2-D array); L1MinusL2Norm accepts block arrays since d060cbd
+BLOCK_OK = set(FAMILIES) - {"nuclear"}
 
 
 # ---------------------------------------------------------------------------------------------
